@@ -101,8 +101,9 @@ def gen_filters(g, rng, tier, n):
             # a guarded chain  tl & (prio != None) & (prio >= k): the second predicate is only defined
             # on the events the first lets through (ordering a None would raise TypeError), so the
             # filters must be applied in the order written
-            guard = {"k": "cmp", "p": ["field", "prio"], "c": "ne", "v": ["none"]}
-            second = {"k": "cmp", "p": ["field", "prio"], "c": rng.choice(["ge", "le", "gt", "lt"]),
+            fp = ["field", "prio"] + (["callable"] if rng.random() < 0.5 else [])
+            guard = {"k": "cmp", "p": fp, "c": "ne", "v": ["none"]}
+            second = {"k": "cmp", "p": fp, "c": rng.choice(["ge", "le", "gt", "lt"]),
                       "v": ["int", rng.choice([0, 1, 2, 5])]}
             if all(e[2] % 5 for e in evs):
                 evs[0][2] = 5 * (max(e[2] for e in evs) // 5 + 1)      # an event whose prio is None (ids = 0 mod 5)
@@ -123,6 +124,10 @@ def gen_filters_derived(g, rng, tier, n):
         inner = {"op": "and", "l": l, "r": r}
         p = rng.choice([["dur", 1], ["dur", 1], ["start"], ["end"]])
         f = {"k": "cmp", "p": p, "c": rng.choice(["ge", "le", "gt", "lt", "eq", "ne"]), "v": ["int", rng.randrange(0, 8)]}
+        if rng.random() < 0.35 and all(e[2] is not None for e in r["evs"]):
+            # a custom field read through an accessor function, on the temporaries an intersection yields
+            f = {"k": "cmp", "p": ["field", "prio", "callable"], "c": rng.choice(["eq", "ne"]),
+                 "v": rng.choice([["int", rng.choice([0, 1, 2, 5])], ["none"]])}
         t = {"op": "filt", "s": inner, "f": f}
         a = rng.randrange(-1, 7)
         b = rng.randrange(a + 1, 9)
@@ -154,7 +159,9 @@ class ApplyFamily(Family):
     def run_impl(self, case):
         try:
             ev = X.mk_event(case["ev"])
-            return [bool(X.build_filter(case["f"]).apply(ev))]
+            flt = X.build_filter(case["f"])
+            X.poison()
+            return [bool(flt.apply(ev))]
         except (TypeError, ValueError) as ex:
             return {"err": type(ex).__name__}
 
